@@ -11,6 +11,58 @@ import z3
 from .zutil import *
 
 
+_QCACHE = {}
+
+
+def has_quantifier(t):
+    if not is_sym(t):
+        return False
+    stack, seen, found = [t], set(), False
+    while stack:
+        x = stack.pop()
+        i = x.get_id()
+        if i in seen:
+            continue
+        seen.add(i)
+        if z3.is_quantifier(x):
+            if x.is_lambda():
+                stack.append(x.body())
+                continue
+            found = True
+            break
+        stack.extend(x.children())
+    return found
+
+
+def finite_instances(t, K):
+    """ground instances of a top-level (conjunction of) ForAll over Int variables, with every variable in 0..K-1 and -1..;
+    anything of another shape contributes nothing (weakening is fine for a candidate search)"""
+    out = []
+    stack = [t]
+    while stack:
+        x = stack.pop()
+        if z3.is_and(x):
+            stack.extend(x.children())
+        elif z3.is_implies(x) and not has_quantifier(x.arg(0)):
+            for inst in finite_instances(x.arg(1), K):
+                out.append(z3.Implies(x.arg(0), inst))
+        elif z3.is_quantifier(x) and x.is_forall() and x.num_vars() <= 2:
+            import itertools
+            nv = x.num_vars()
+            for vals in itertools.product(range(0, K), repeat=nv):
+                # de Bruijn: var 0 is the LAST bound variable
+                subs = [z3.IntVal(v) for v in reversed(vals)]
+                try:
+                    inst = z3.substitute_vars(x.body(), *subs)
+                except z3.Z3Exception:
+                    continue
+                if not has_quantifier(inst):
+                    out.append(inst)
+        elif not has_quantifier(x):
+            out.append(x)
+    return out
+
+
 class Unsupported(Exception):
     """The engine met a construct it does not model.  Never mapped to 'holds' or 'violation'."""
 
@@ -71,6 +123,7 @@ class Run:
         self.trace = []            # human-readable decision labels
         self.depth = 0
         self.notes = []
+        self.raw_quantified = []
 
     # ---- naming
     def fresh_name(self, base):
@@ -88,7 +141,10 @@ class Run:
 
     # ---- constraints
     def assume(self, t):
+        raw = t
         t = simp(t) if is_sym(t) else t
+        if is_sym(raw) and has_quantifier(raw):
+            self.raw_quantified.append(raw)       # the form as written (simplification may restructure quantifiers)
         if t is True:
             return
         if t is False:
@@ -184,7 +240,8 @@ class Run:
             ex.record(Obligation(name, 'discharged', secs, detail=detail))
         elif r == z3.sat:
             m = self.solver.model()
-            inputs = self.concretize_inputs(m)
+            small = self.small_candidate(c)
+            inputs = small if small is not None else self.concretize_inputs(m)
             status, kid = 'failed', None
             from . import known as _known
             ents = _known.open_entries_for(ex.known, name)
@@ -213,14 +270,13 @@ class Run:
             ex.record(o)
         else:
             reason = self.solver.reason_unknown()
-            smt2 = self.solver.to_smt2() if ex.second_opinion else None
             self.solver.pop()
-            st = 'unknown'
-            if smt2 is not None:
-                st2 = ex.second_opinion(smt2)
-                if st2 == 'unsat':
-                    st = 'discharged'
-            ex.record(Obligation(name, st, secs, detail=f'{detail} z3:{reason}'))
+            # The solver gave up (typically quantified assumptions).  Look for a CANDIDATE counterexample under the
+            # quantifier-free part of the path condition; it is only a candidate: the caller re-runs the function with
+            # these inputs pinned, where every quantifier ranges over concrete data, before anything is reported.
+            cand = self.small_candidate(c)
+            o = Obligation(name, 'unknown', secs, inputs=cand, trace=tuple(self.trace), detail=f'{detail} z3:{reason}')
+            ex.record(o)
         if c is False:
             raise PathEnd('obligation false')
         self.assume(c)
@@ -251,6 +307,58 @@ class Run:
         for n, c in named:
             self.oblige(n, c)
 
+    def small_candidate(self, c, K=3):
+        """a SMALL candidate counterexample for claim c: the quantifier-free part of the path condition, the universally
+        quantified assumptions instantiated on the indices 0..K-1, and size bounds on the inputs.  Quantifier-free, hence
+        fast and deterministic.  Only a candidate: it is confirmed by re-running with the inputs pinned."""
+        try:
+            s2 = z3.Solver()
+            s2.set('timeout', 8000)
+            for t in self.pc:
+                if not has_quantifier(t):
+                    s2.add(t)
+            for t in self.raw_quantified:
+                for inst in finite_instances(t, K):
+                    s2.add(inst)
+            for nm, kind, payload in self.inputs:
+                if kind == 'bufseq':
+                    seq, h0 = payload
+                    s2.add(zint(seq.n) <= K)
+                    from .symseq import PS
+                    s2.add(PS(seq.lens, z3.IntVal(0)) == 0)
+                    for j in range(K):
+                        s2.add(PS(seq.lens, z3.IntVal(j + 1)) == PS(seq.lens, z3.IntVal(j)) + z3.Select(seq.lens, j))
+                    for j in range(K):
+                        s2.add(z3.Select(seq.lens, j) <= 300)
+                        s2.add(z3.Select(seq.lens, j) >= 0)
+                        row = z3.Select(h0, z3.Select(seq.cells, j))
+                        st = z3.Select(seq.starts, j)
+                        for k in range(24):          # header bytes are bytes (the rest is irrelevant to the arithmetic)
+                            b = z3.Select(row, st + k)
+                            s2.add(z3.And(b >= 0, b <= 255))
+                elif kind == 'symmap':
+                    dom, _ = payload
+                    kq = z3.Int('k!cand')
+                    # candidate maps use the key ids 0..K only
+                    for kk in range(K + 1, K + 6):
+                        s2.add(z3.Not(z3.Select(dom, kk)))
+                    s2.add(z3.Not(z3.Select(dom, -1)))
+                elif kind == 'buf':
+                    v, h0 = payload
+                    s2.add(zint(v.length) <= 2000)
+                    for k in range(40):
+                        b = v.at(h0, k)
+                        s2.add(z3.And(b >= 0, b <= 255))
+            if c is not False and not has_quantifier(c):
+                s2.add(z3.Not(c))
+            elif c is not False:
+                return None
+            if s2.check() == z3.sat:
+                return self.concretize_inputs(s2.model())
+        except z3.Z3Exception:
+            return None
+        return None
+
     def concretize_inputs(self, model):
         out = {}
         for name, kind, payload in self.inputs:
@@ -268,6 +376,26 @@ class Run:
                         b = model.eval(view.at(heap, k), model_completion=True)
                         bs.append(b.as_long() % 256 if z3.is_int_value(b) else 0)
                     out[name] = {'hex': bytes(bs).hex(), 'kind': view.kind}
+                elif kind == 'bufseq':
+                    seq, heap = payload
+                    n = model.eval(zint(seq.n), model_completion=True).as_long()
+                    comps = []
+                    for j in range(max(0, min(n, 8))):
+                        ln = model.eval(z3.Select(seq.lens, j), model_completion=True).as_long()
+                        cell, st = z3.Select(seq.cells, j), z3.Select(seq.starts, j)
+                        bs = []
+                        for k in range(max(0, min(ln, 400))):
+                            b = model.eval(z3.Select(z3.Select(heap, cell), st + k), model_completion=True)
+                            bs.append(b.as_long() % 256 if z3.is_int_value(b) else 0)
+                        comps.append(bytes(bs).hex())
+                    out[name] = {'components_hex': comps, 'n': n}
+                elif kind == 'symmap':
+                    dom, val = payload
+                    items = []
+                    for k in range(4):
+                        if z3.is_true(model.eval(z3.Select(dom, k), model_completion=True)):
+                            items.append([k, model.eval(z3.Select(val, k), model_completion=True).as_long()])
+                    out[name] = {'items': items}
                 elif kind == 'const':
                     out[name] = payload
             except Exception as e:      # noqa
@@ -299,6 +427,43 @@ class Run:
             for k, b in enumerate(data):
                 self.assume(v.at(self.heap, k) == b)
         return v
+
+    def input_bufseq(self, name, kind='bytearray'):
+        """a symbolic list of byte strings (e.g. a FormalName) given as input"""
+        from .symseq import BufSeq
+        seq = BufSeq.fresh(self, name, kind)
+        self.inputs.append((name, 'bufseq', (seq, self.heap)))
+        pin = self.ex.pinned.get(name) if self.ex.pinned else None
+        if pin is not None:
+            from .symseq import PS
+            comps = [bytes.fromhex(x) for x in pin['components_hex']]
+            self.assume(zint(seq.n) == len(comps))
+            self.assume(PS(seq.lens, z3.IntVal(0)) == 0)
+            for j, cb in enumerate(comps):
+                self.assume(PS(seq.lens, z3.IntVal(j + 1)) == PS(seq.lens, z3.IntVal(j)) + len(cb))
+            for j, cb in enumerate(comps):
+                self.assume(z3.Select(seq.lens, j) == len(cb))
+                self.assume(z3.Select(seq.cells, j) == -(j + 1))          # input cells are negative: distinct from allocated ones
+                self.assume(z3.Select(seq.starts, j) == 0)
+                for k, b in enumerate(cb):
+                    self.assume(z3.Select(z3.Select(self.heap, z3.IntVal(-(j + 1))), k) == b)
+        return seq
+
+    def input_symmap(self, name):
+        """a symbolic dict over opaque keys given as input; candidates / pins use the key ids 0..3 only"""
+        from .symseq import SymMap
+        m = SymMap.fresh(self, name)
+        self.inputs.append((name, 'symmap', (m.dom, m.val)))
+        pin = self.ex.pinned.get(name) if self.ex.pinned else None
+        if pin is not None:
+            dom = z3.K(INT, z3.BoolVal(False))
+            val = z3.K(INT, z3.IntVal(0))
+            for k, v in pin['items']:
+                dom = z3.Store(dom, int(k), z3.BoolVal(True))
+                val = z3.Store(val, int(k), int(v))
+            self.assume(m.dom == dom)
+            self.assume(m.val == val)
+        return m
 
     def input_int(self, name):
         t = self.fresh_int(name)
